@@ -53,8 +53,8 @@ SIZES = {
             'thorough': {'s1': 9000, 'm': 6, 's2': 1500, 's3': 3000}},
     'C11': {'quick': {'s1': 320, 'm': 3, 's2': 40}, 'thorough': {'s1': 9000, 'm': 6, 's2': 1000}},
     'C12': {'quick': {'s1': 240, 'm': 2, 's3': 160}, 'thorough': {'s1': 6000, 'm': 3, 's3': 6000}},
-    'C09': {'quick': {'s1': 320, 'm': 4, 's2': 120, 'sweep': 0},
-            'thorough': {'s1': 8000, 'm': 8, 's2': 3000, 'sweep': 48}},
+    'C09': {'quick': {'s1': 320, 'm': 4, 's2': 120, 'sweep': 0, 'midsweep': 0},
+            'thorough': {'s1': 8000, 'm': 8, 's2': 3000, 'sweep': 48, 'midsweep': 12}},
     'C13': {'quick': {'s3': 700}, 'thorough': {'s3enum': 40, 's3': 4000}},
     'C19': {'quick': {'s4': 600, 's1': 120, 'm': 2, 'vanish': 80},
             'thorough': {'s4enum': 400, 's4': 20000, 's1': 3000, 'm': 3, 'vanish': 2000}},
@@ -79,6 +79,9 @@ def build_tasks(prop, tier, seed):
                     t['nboards'] = (1, 2, 2, 3)[i % 4]
             elif fam == 'sweep':
                 t.update(type='sweep', variant=i)
+            elif fam == 'midsweep':
+                # shapes 0 (one passed-out board) and 2 (one played board) under three orders
+                t.update(type='sweep', variant=(0, 2)[i % 2] + 6 * (i // 2), midcode=True)
             else:
                 t['type'] = fam
             tasks.append(t)
